@@ -34,47 +34,29 @@ Proof. vm_compute; reflexivity. Qed.
 
 (* ======================================================================================== *)
 (* ==== SWITCH BLOCK (begin) ============================================================== *)
-(* The two places below say which defects of /repo are still open.  They were switched on
-   2026-09-25 after the repairs ee7595b (bound-method blacken), a563c74 (HashMap keys), 05235d7
-   (ObjClass superclass) landed; `python3 tools/props/C01.py --switch` re-derives both from the
-   current sources (notes/C01.md, "Switching").
+(* The three places below say which defects of /repo are still open.  History: all of them were
+   in their "open" state until 2026-09-25; repairs ee7595b (bound-method blacken), a563c74
+   (HashMap keys), 05235d7 (ObjClass superclass) and, on 2026-09-26, 8e4673f (an open upvalue
+   traces the fiber owning its stack slot) closed every one.  `python3 tools/props/C01.py --switch`
+   re-derives all three from the current sources (notes/C01.md, "Switching").
 
    SWITCH 1 -- open trace-edge classes: (kind, role) pairs a struct can hold that `mark` does not
-   follow and no permanent root pins.  Before the repairs the list was
-       [(KUpvalue, ROpenSlot); (KClass, RSuperclass); (KHashMap, RKey)].
-   (KUpvalue, ROpenSlot) = known class open_upvalue_dead_fiber, not scheduled for repair; when it
-   is repaired the list becomes [] and C01_holds_covered_refuted turns into the plain positive
-   statement `tables_cover holds_gen marks_gen pinned_ref = true`. *)
+   follow and no permanent root pins.  Before the repairs:
+       [(KUpvalue, ROpenSlot); (KClass, RSuperclass); (KHashMap, RKey)]. *)
 Definition c01_open_pairs : list (kind * role) :=
-  [(KUpvalue, ROpenSlot)].
+  [].
 
-(* -- the key side condition (statements do not change when switching) -- *)
-(* with only the permanent-root pins it is FALSE as long as an open class is left, and exactly the
-   open classes are uncovered *)
-Theorem C01_holds_covered_refuted :
-  tables_cover holds_gen marks_gen pinned_ref = match c01_open_pairs with [] => true | _ => false end /\
-  uncovered holds_gen marks_gen pinned_ref = c01_open_pairs.
-Proof. split; vm_compute; reflexivity. Qed.
-(* every other role a struct can hold is followed by `mark` or pinned by a permanent root *)
-Definition pinned_c01 : kind -> role -> bool := pinned_plus pinned_ref c01_open_pairs.
-Theorem C01_holds_covered : tables_cover holds_gen marks_gen pinned_c01 = true.
+(* -- statements that do not change when switching -- *)
+(* exactly the open classes are uncovered *)
+Theorem C01_uncovered_exact : uncovered holds_gen marks_gen pinned_ref = c01_open_pairs.
 Proof. vm_compute; reflexivity. Qed.
-Theorem C01_holds_covered_spec :
-  forall k r, In r (holds_gen k) -> marks_gen k r = true \/ pinned_c01 k r = true.
-Proof. exact (holds_covered holds_gen marks_gen pinned_c01 C01_holds_covered). Qed.
-(* the open class that is not scheduled for repair breaks schedule independence in the model, too:
-   an open upvalue whose stack slot lives in a fiber that nothing else reaches *)
-Theorem C01_schedule_dependence_refuted :
-  has_uaf (run_gen 3 [false; false; true] prog_upvalue) = true /\
-  has_uaf (run_gen 3 [] prog_upvalue) = false.
-Proof. split; vm_compute; reflexivity. Qed.
-
-(* -- schedule independence, premise explicit --
-   For every mutator program and every two schedules: same observation trace, no use of a reclaimed box,
-   no divergence -- for programs that store into the open roles only boxes that stay pinned
-   (= programs outside the known open classes; `pinned_c01`), PROVIDED `blacken` never re-greys.
-   The premise is discharged in variant REPAIRED of SWITCH 2. *)
-Theorem C01_schedule_independence_modulo_regrey :
+(* every role outside the open classes is followed by `mark` or pinned by a permanent root *)
+Definition pinned_c01 : kind -> role -> bool := pinned_plus pinned_ref c01_open_pairs.
+Theorem C01_holds_covered_modulo_open : tables_cover holds_gen marks_gen pinned_c01 = true.
+Proof. vm_compute; reflexivity. Qed.
+(* schedule independence with both premises explicit: for programs that store into the open roles only
+   boxes that stay pinned (= programs outside the open classes), provided `blacken` never re-greys *)
+Theorem C01_schedule_independence_modulo :
   no_regrey blackens_mark_gen = true ->
   forall nregs p sched1 sched2,
     let run := run marks_gen blackens_black_gen blackens_mark_gen holds_gen pinned_c01 in
@@ -82,7 +64,7 @@ Theorem C01_schedule_independence_modulo_regrey :
     has_diverged (run nregs sched1 p) = false.
 Proof.
   exact (schedule_independence marks_gen blackens_black_gen blackens_mark_gen holds_gen pinned_c01
-           C01_holds_covered).
+           C01_holds_covered_modulo_open).
 Qed.
 
 (* SWITCH 2 -- does `ObjBoundMethod::blacken` re-grey its receiver (`receiver.mark()`)?
@@ -94,15 +76,8 @@ Proof. vm_compute; reflexivity. Qed.
 Theorem C01_collect_terminates :
   forall h, collect_opt marks_gen blackens_black_gen blackens_mark_gen h <> None.
 Proof. exact (fun h => collect_terminates marks_gen blackens_black_gen blackens_mark_gen h C01_no_regrey). Qed.
-Theorem C01_schedule_independence :
-  forall nregs p sched1 sched2,
-    let run := run marks_gen blackens_black_gen blackens_mark_gen holds_gen pinned_c01 in
-    run nregs sched1 p = run nregs sched2 p /\ has_uaf (run nregs sched1 p) = false /\
-    has_diverged (run nregs sched1 p) = false.
-Proof. exact (C01_schedule_independence_modulo_regrey C01_no_regrey). Qed.
 Print Assumptions C01_no_regrey.
 Print Assumptions C01_collect_terminates.
-Print Assumptions C01_schedule_independence.
 (* ---- variant REPAIRED (end) ---- *)
 
 (* ---- variant UNREPAIRED (begin; inactive)
@@ -126,6 +101,45 @@ Print Assumptions C01_no_regrey_refuted.
 Print Assumptions C01_collect_terminates_refuted.
 Print Assumptions C01_schedule_divergence_refuted.
 ---- variant UNREPAIRED (end) *)
+
+(* SWITCH 3 -- the headline statements.  Variant ALL-COVERED is active iff `c01_open_pairs = []` and SWITCH 2
+   is in variant REPAIRED; otherwise variant SOME-OPEN (refuted side condition, witness) is. *)
+
+(* ---- variant ALL-COVERED (begin; active) ---- *)
+(* every role a struct can hold is followed by `mark` or pinned by a permanent root *)
+Theorem C01_holds_covered : tables_cover holds_gen marks_gen pinned_ref = true.
+Proof. vm_compute; reflexivity. Qed.
+Theorem C01_holds_covered_spec :
+  forall k r, In r (holds_gen k) -> marks_gen k r = true \/ pinned_ref k r = true.
+Proof. exact (holds_covered holds_gen marks_gen pinned_ref C01_holds_covered). Qed.
+(* for EVERY mutator program and every two schedules: same observation trace, no use of a reclaimed box,
+   no divergence *)
+Theorem C01_schedule_independence :
+  forall nregs p sched1 sched2,
+    run_gen nregs sched1 p = run_gen nregs sched2 p /\ has_uaf (run_gen nregs sched1 p) = false /\
+    has_diverged (run_gen nregs sched1 p) = false.
+Proof.
+  exact (schedule_independence marks_gen blackens_black_gen blackens_mark_gen holds_gen pinned_ref
+           C01_holds_covered C01_no_regrey).
+Qed.
+Print Assumptions C01_holds_covered.
+Print Assumptions C01_holds_covered_spec.
+Print Assumptions C01_schedule_independence.
+(* ---- variant ALL-COVERED (end) ---- *)
+
+(* ---- variant SOME-OPEN (begin; inactive)
+Theorem C01_holds_covered_refuted : tables_cover holds_gen marks_gen pinned_ref = false.
+Proof. vm_compute; reflexivity. Qed.
+Theorem C01_holds_covered_spec :
+  forall k r, In r (holds_gen k) -> marks_gen k r = true \/ pinned_c01 k r = true.
+Proof. exact (holds_covered holds_gen marks_gen pinned_c01 C01_holds_covered_modulo_open). Qed.
+Print Assumptions C01_holds_covered_refuted.
+Print Assumptions C01_holds_covered_spec.
+---- variant SOME-OPEN (end) *)
+(* (while (KUpvalue, ROpenSlot) was open the block also held
+   C01_schedule_dependence_refuted : has_uaf (run_gen 3 [false; false; true] prog_upvalue) = true /\
+                                     has_uaf (run_gen 3 [] prog_upvalue) = false;
+   the same witness for the hand-transcribed tables is MutatorProofs.other_uncovered_roles.) *)
 (* ==== SWITCH BLOCK (end) ================================================================ *)
 (* ======================================================================================== *)
 
@@ -162,12 +176,10 @@ Print Assumptions C01_holds_gen_is_ref.
 Print Assumptions C01_marks_ref_kept.
 Print Assumptions C01_tables_within.
 Print Assumptions C01_tables_agree.
-Print Assumptions C01_holds_covered_refuted.
-Print Assumptions C01_holds_covered.
-Print Assumptions C01_holds_covered_spec.
-Print Assumptions C01_schedule_dependence_refuted.
+Print Assumptions C01_uncovered_exact.
+Print Assumptions C01_holds_covered_modulo_open.
+Print Assumptions C01_schedule_independence_modulo.
 Print Assumptions C01_collect_retains_reach.
 Print Assumptions C01_collect_closed.
 Print Assumptions C01_collect_only_reach.
 Print Assumptions C01_collect_exact.
-Print Assumptions C01_schedule_independence_modulo_regrey.
